@@ -36,6 +36,8 @@ def decl_info(p):
     """(scalars [(name, bits)], arrays [(name, len)]) of a generated Program"""
     sc, ar = [], []
     for (ct, name, n, q) in p.decls:
+        if "*" in ct:
+            continue            # a pointer variable is not part of the verdict (the twin of the program has none)
         if n:
             ar.append((name, n, 16 if "short" in ct else 8))
         else:
@@ -130,7 +132,7 @@ def check_compiled(chk, m, src, p, result, pid, nstates, seed, level, sig_fn, ex
     if col.failed is None:
         return n
     sig, what, replay = col.failed
-    if compile_fn is not None:
+    if compile_fn is not None and getattr(p, "oracle", None) is None:
         import copy
         q = copy.deepcopy(p)
         def still(pp):
@@ -186,6 +188,11 @@ def _check_compiled(chk, m, src, p, result, pid, nstates, seed, level, sig_fn, e
         if res.get("faults", 0):
             chk.fail(sig_fn("port-fault"), "%d split-port access faults (-O%d)" % (res["faults"], level),
                      dict({"source": src, "level": level, "initial": {a: c for a, b, c in vals}}, **(extra or {})))
+            return n
+        if res.get("SP") != 255:
+            # the function returns through the stack: every byte it pushed must have been pulled again
+            chk.fail(sig_fn("stack-imbalance"), "compiled code (-O%d) ends with the stack pointer at $%02X instead of $FF: pushes and pulls do not pair up" % (level, res.get("SP")),
+                     dict({"source": src, "level": level, "initial": {a: c for a, b, c in vals}, "arrays": dict(arrs), "SP": res.get("SP")}, **(extra or {})))
             return n
         got = observed(res, p, regions)
         if got != exp[1]:
